@@ -197,7 +197,7 @@ def plan(tier, seed):
     if tier == 'quick':
         cfgs = [{'p': 2, 'q': 0, 'r': 0}, {'p': 3, 'q': 0, 'r': 0}, {'p': 2, 'q': 0, 'r': 1}, {'p': 1, 'q': 1, 'r': 0},
                 {'signature': [1, -1, 1]}, {'named': '2DPGA'}, {'p': 2, 'q': 0, 'r': 0, 'opts': {'wrapper': 'identity'}},
-                {'p': 3, 'q': 0, 'r': 1}]
+                {'p': 3, 'q': 0, 'r': 1}, {'p': 2, 'q': 0, 'r': 1, 'opts': {'wrapper': 'wraps'}}]
         for i, c in enumerate(cfgs):
             units.append({'cfg': c, 'fam': 'depth1', 'i': 0, 'n': 1})
             units.append({'cfg': c, 'fam': 'depth2', 'count': 110})
@@ -207,7 +207,8 @@ def plan(tier, seed):
         cfgs = [{'p': 2, 'q': 0, 'r': 0}, {'p': 3, 'q': 0, 'r': 0}, {'p': 2, 'q': 0, 'r': 1}, {'p': 1, 'q': 1, 'r': 0},
                 {'signature': [1, -1, 1]}, {'signature': [0, 1]}, {'named': '2DPGA'}, {'named': '3DPGA'},
                 {'p': 2, 'q': 0, 'r': 0, 'opts': {'wrapper': 'identity'}}, {'p': 3, 'q': 0, 'r': 1}, {'p': 4, 'q': 0, 'r': 0},
-                {'p': 2, 'q': 1, 'r': 0, 'opts': {'cse': False}}, {'p': 1, 'q': 0, 'r': 1}, {'p': 0, 'q': 2, 'r': 0}]
+                {'p': 2, 'q': 1, 'r': 0, 'opts': {'cse': False}}, {'p': 1, 'q': 0, 'r': 1}, {'p': 0, 'q': 2, 'r': 0},
+                {'p': 2, 'q': 0, 'r': 1, 'opts': {'wrapper': 'wraps'}}, {'p': 3, 'q': 0, 'r': 0, 'opts': {'wrapper': 'wraps'}}]
         cfgs += [gen.random_custom_cfg(rng, rng.choice((2, 3))) for _ in range(4)]
         for c in cfgs:
             units.append({'cfg': c, 'fam': 'depth1', 'i': 0, 'n': 1})
